@@ -55,6 +55,22 @@ def nearest_ok(y, num_terms, den, xs_bits=20):
     return core.mkbool(2 * ad * (1 << 20) <= z3.BitVecVal(abs(D) * ((1 << 20) + 1), width))
 
 
+def abs_le(terms, bound, xs_bits=20):
+    """| sum c_i * x_i | <= bound  (rational c_i and bound, int-like x_i), exactly"""
+    fr = [Fraction(c) for c, _ in terms] + [Fraction(bound)]
+    L = 1
+    for q in fr:
+        L = L * q.denominator // gcd(L, q.denominator)
+    ints = [int(q * L) for q in fr]
+    width = max(abs(i).bit_length() for i in ints) + xs_bits + 24
+    width = max(width, core.W + 8)
+    acc = z3.BitVecVal(0, width)
+    for c, (_, x) in zip(ints[:-1], terms):
+        acc = acc + z3.BitVecVal(c, width) * _wide(x, width)
+    ad = z3.If(acc < 0, -acc, acc)
+    return core.mkbool(ad * (1 << 20) <= z3.BitVecVal(ints[-1] * ((1 << 20) + 1), width))
+
+
 def close(y, ref):
     """floats: identical, or within 2^-40 relative (allows a re-associated but equivalent formula)"""
     ye, re_ = core.fp(y), core.fp(ref)
@@ -278,6 +294,23 @@ def run_inverse(sx, cfg, env):
             sx.require(close(x, ref), "inverse-linear-formula")
     elif cat == "IDENTICAL":
         sx.require(x == y, "identity")
+    elif cat == "SCALE-LINEAR":
+        # the result must be a pre-image: converting it forward gives y again (integer types,
+        # slopes of magnitude >= 1 or plateaus with an inverse value)
+        # the result lies in some scale and is a nearest integer pre-image there: its exact
+        # forward image is within half a slope of y
+        seg = _seg_of(spec, x)
+        sx.require(seg is not None, "inverse-result-is-a-valid-internal-value")
+        if seg is not None:
+            O, F, D = _coeffs(spec["scales"][seg])
+            if F != 0 and to_int:
+                # |f(x) - y| <= half of the steepest slope (at a scale boundary the nearest
+                # pre-image may belong to the neighbouring scale)
+                smax = max(abs(Fraction(_coeffs(sc)[1]) / Fraction(_coeffs(sc)[2]))
+                           for sc in spec["scales"])
+                sx.require(abs_le([(Fraction(O) * yd, 1), (Fraction(F) * yd, x), (-Fraction(D), yn)],
+                                  smax / 2 * abs(Fraction(D)) * yd, xs_bits=cfg["bits"] + 4),
+                           "inverse-result-is-a-nearest-pre-image")
 
 
 def run_roundtrip(sx, cfg, env):
@@ -379,6 +412,9 @@ def methods(tier):
         "mixed": [_lin(0, 1, 1, -100, 0), _lin(0, -1, 1, 0, 100, "OPEN")],
         "overlap": [_lin(0, 1, 1, -100, 10), _lin(100, 2, 1, 0, 100)],
         "const": [_lin(0, 1, 1, -100, 0), _lin(0, 0, 1, 0, 10, "OPEN", inv=5), _lin(-10, 1, 1, 10, 100, "OPEN")],
+        "decr-plateau": [_lin(0, -1, 1, -100, 0), _lin(0, 0, 1, 0, 10, "OPEN", inv=5),
+                         _lin(20, -2, 1, 10, 60, "OPEN")],
+        "plateau-then-decr": [_lin(7, 0, 1, -100, 0, inv=-50), _lin(7, -1, 1, 0, 50, "OPEN")],
     }
     for name, scales in sl.items():
         for it_, pt_ in (("A_INT32", "A_INT32"), ("A_INT32", "A_FLOAT64")):
@@ -393,6 +429,7 @@ def methods(tier):
             out.append(("TAB-INTP", it_, pt_, cm, name))
     # RAT-FUNC
     rats = {"lin": ([1, 2], [1], [-0.5, 0.5], [1]), "quad": ([0, 0, 1], [1], None, None),
+            "neg": ([-50, 1], [4], [50, 4], [1]), "negquad": ([-300, 0, 0.5], [1], None, None),
             "frac": ([1, 1], [4], [-1, 4], [1]), "recip": ([10], [1, 1], None, None)}
     for name, (num, den, inum, iden) in rats.items():
         for it_, pt_ in (("A_INT32", "A_FLOAT64"), ("A_INT32", "A_INT32")):
@@ -433,9 +470,10 @@ def configs(tier, seed):
         out.append(dict(base, harness="forward", bits=b, id=f"forward/{cat}/{it_}-{pt_}/{name}"))
         if cat in ("LINEAR", "IDENTICAL"):
             out.append(dict(base, harness="inverse", bits=b, id=f"inverse/{cat}/{it_}-{pt_}/{name}"))
-        if cat == "SCALE-LINEAR" and name in ("cont-incr", "cont-decr") and pt_ in INTS:
-            out.append(dict(base, harness="inverse", bits=9,
-                            valid_range=[-100, 150] if name == "cont-incr" else [-180, 100],
+        vr = {"cont-incr": [-100, 150], "cont-decr": [-180, 100], "const": [-100, 90],
+              "decr-plateau": [-100, 100], "plateau-then-decr": [-43, 7]}
+        if cat == "SCALE-LINEAR" and name in vr and pt_ in INTS:
+            out.append(dict(base, harness="inverse", bits=9, valid_range=vr[name],
                             id=f"inverse/{cat}/{it_}-{pt_}/{name}"))
         if cat == "RAT-FUNC" and "inv_scales" in cm and pt_ in FLOATS:
             out.append(dict(base, harness="roundtrip", bits=bits,
